@@ -297,9 +297,9 @@ def main(argv=None):
         return 1
     if harness_errors or inconclusive:
         for h in harness_errors:
-            print('HARNESS-ERROR: ' + h, file=sys.stderr)
+            print('HARNESS-ERROR: ' + h[:700], file=sys.stderr)
         for h in inconclusive:
-            print('INCONCLUSIVE: ' + h, file=sys.stderr)
+            print('INCONCLUSIVE: ' + h[:500], file=sys.stderr)
         return 3
     return 0
 
